@@ -136,6 +136,9 @@ def terminal_observations(x):
     obs["to_dense"] = ("blk", ser.canon_blk(ser.enc_block(x.to_dense()))) if all(
         ix.chargemap for ix in x.indices) else None
     obs["sum"] = ser.canon_scalar(ser.enc_scalar(x.sum()))
+    if x.ndim == 0 or (len(x.blocks) == 1 and all(ix.size_total == 1 for ix in x.indices)):
+        obs["item"] = ser.canon_scalar(ser.enc_scalar(x.item()))
+        obs["complex"] = ser.canon_scalar(ser.enc_scalar(complex(x)))
     v = float(x.norm()) ** 2
     obs["norm2"] = round(v) if abs(v - round(v)) <= 2e-5 * max(1.0, v) else v
     if real:
